@@ -71,11 +71,9 @@ Record column := mkcol { c_uid : Z; c_name : str; c_val : content }.
 (* d_cols : the columns in storage order, each with its user identifier (Db::_uidcol inverted)
    d_nuid : Db::getUIDMaxNumber() (size of _uidcol; never shrinks)
    d_locs : Db::_p, one list of uids per locator type (ELoc value 0..28)
-   d_grid / d_gdim : DbGrid and its grid dimension (immutable here)
-   d_lguard : version of the code, read in the source by checks/C19.py: Db::setLocatorByUID (Db.cpp:1136) returns
-              at once for the uid of a deleted column ("if (_uidcol[iuid] < 0) return;" present) or not (pinned tree) *)
+   d_grid / d_gdim : DbGrid and its grid dimension (immutable here)                   *)
 Record db := mkdb { d_cols : list column; d_nuid : Z; d_locs : list (list Z);
-                    d_grid : bool; d_gdim : Z; d_lguard : bool }.
+                    d_grid : bool; d_gdim : Z }.
 
 Definition NLOC : nat := 29.
 Definition L_X : Z := 0.
@@ -84,8 +82,8 @@ Definition L_F : Z := 3.
 Definition L_NOSTAT : Z := 20.
 Definition L_SIMU : Z := 22.
 
-Definition with_cols (d : db) (c : list column) : db := mkdb c (d_nuid d) (d_locs d) (d_grid d) (d_gdim d) (d_lguard d).
-Definition with_locs (d : db) (l : list (list Z)) : db := mkdb (d_cols d) (d_nuid d) l (d_grid d) (d_gdim d) (d_lguard d).
+Definition with_cols (d : db) (c : list column) : db := mkdb c (d_nuid d) (d_locs d) (d_grid d) (d_gdim d).
+Definition with_locs (d : db) (l : list (list Z)) : db := mkdb (d_cols d) (d_nuid d) l (d_grid d) (d_gdim d).
 
 Definition loc_ok (t : Z) : bool := (0 <=? t) && (t <? Z.of_nat NLOC).
 Definition getloc (locs : list (list Z)) (t : Z) : list Z :=
@@ -119,8 +117,9 @@ Fixpoint erase_first (u : Z) (l : list Z) : list Z :=
 (* PtrGeos::resize(count) pads with 0 (PtrGeos.hpp) *)
 Definition pad (p : list Z) (n : nat) : list Z := p ++ repeat 0 (n - length p).
 
-(* Db::setLocatorByUID (Db.cpp:1136), cleanSameLocator = false *)
-Definition set_locator_ok (d : db) (u : Z) : bool := uid_valid d u && (negb (d_lguard d) || has_col d u).
+(* Db::setLocatorByUID (Db.cpp:1136), cleanSameLocator = false; the uid of a deleted column is ignored
+   ("if (_uidcol[iuid] < 0) return;": checks/C19.py asserts that this line is in the source) *)
+Definition set_locator_ok (d : db) (u : Z) : bool := uid_valid d u && has_col d u.
 Definition set_locator (d : db) (u t idx : Z) : db :=
   if negb (set_locator_ok d u) then d else
   let idx := if idx <? 0 then locnum d t else idx in
@@ -154,7 +153,7 @@ Definition add_columns (d : db) (nadd : Z) (init : content) (radix : str) (t idx
   let news := map (fun p => mkcol (n0 + Z.of_nat (fst p)) (snd p) init) (combine (seq 0 k) raw) in
   let all := d_cols d ++ news in
   let cols' := zipnames all (correct_dups (map c_name all)) in
-  let d1 := mkdb cols' (n0 + nadd) (d_locs d) (d_grid d) (d_gdim d) (d_lguard d) in
+  let d1 := mkdb cols' (n0 + nadd) (d_locs d) (d_grid d) (d_gdim d) in
   let d2 := if t <? 0 then d1 else set_locators_by_uid d1 nadd n0 t idx in
   (d2, n0).
 
@@ -162,7 +161,7 @@ Definition add_columns (d : db) (nadd : Z) (init : content) (radix : str) (t idx
 Definition delete_column (d : db) (u : Z) : db :=
   if uid_valid d u && has_col d u then
     mkdb (filter (fun c => negb (c_uid c =? u)) (d_cols d)) (d_nuid d)
-         (map (erase_first u) (d_locs d)) (d_grid d) (d_gdim d) (d_lguard d)
+         (map (erase_first u) (d_locs d)) (d_grid d) (d_gdim d)
   else d.
 Definition delete_columns (d : db) (us : list Z) : db := fold_left delete_column us d.
 
